@@ -119,6 +119,7 @@ CLAIMED = {
              "modelled; log records of the logging variants are not part of the compared outcome.",
         design_ref="§5 C21",
     ),
+<<<<<<< HEAD
     "C34": dict(
         category="proof",
         technique="Lean 4 proof that the model of native_concat equals the documented result for every piece list, both "
@@ -133,6 +134,24 @@ CLAIMED = {
         note="Trusted: Lean kernel; hand model Model/Native.lean; ast.literal_eval/parse are a parameter (Python's); the "
              "native code generator is covered end-to-end only.",
         design_ref="§5 C34",
+=======
+    "C28": dict(
+        category="proof",
+        technique="Lean 4 proofs about the model of split_template_path / posixpath.join / choice and prefix dispatch "
+                  "(all names, any separators) + exhaustive differential names + audit-hook runs of the real loaders",
+        text="Theorems (Props/C28.lean): for every name and any os.sep/altsep, every piece split_template_path accepts is "
+             "non-empty, is not '.' or '..' and contains no '/', separator or alternative separator (split_safe); a name "
+             "with a '..' segment is rejected (pardir_rejected); joining a search directory with accepted pieces only "
+             "appends path components, none is absolute (join_inside); the choice loader answers with the first loader "
+             "that has the name and fails iff none has it (choice_first, choice_none_iff); the prefix loader dispatches "
+             "on the text before the first delimiter (prefix_dispatch). Tie: every name of <=3 (quick) / <=4 (thorough) "
+             "segments over 15 fragments under POSIX and Windows separators; the same names against FileSystemLoader, "
+             "PackageLoader, PrefixLoader, ChoiceLoader on a scratch tree with sentinels outside and an audit hook "
+             "recording every open(); static and content-changing compositions of dict loaders.",
+        note="Trusted: Lean kernel; hand model Model/Path.lean (tied by correspondence); the OS path resolution and "
+             "symlinks are outside the model (observed by the audit hook only).",
+        design_ref="§5 C28",
+>>>>>>> build/C34
     ),
     "C22": dict(
         category="proof",
